@@ -557,7 +557,7 @@ func (c *evalCtx) index(x *ast.IndexExpr) *sv {
 	switch u := base.ty.Underlying().(type) {
 	case *types.Slice:
 		s := c.rv1(base)
-		return &sv{ty: u.Elem(), sort: leafSort(u.Elem()), addr: sliceElemLoc(s, mulConst(idx, stride(u.Elem())))}
+		return &sv{ty: u.Elem(), sort: leafSort(u.Elem()), addr: sliceElemLoc(s, idx, stride(u.Elem()))}
 	case *types.Array:
 		if base.addr != "" && base.terms == nil {
 			return &sv{ty: u.Elem(), sort: leafSort(u.Elem()), addr: locPlusTerm(base.addr, mulConst(idx, stride(u.Elem())))}
@@ -1438,7 +1438,12 @@ func findPattern(body, qv string) string {
 				continue
 			}
 			idx := args[2]
-			if strings.Contains(idx, qv) && !strings.Contains(idx, "select") && !strings.Contains(idx, "ite") && !strings.Contains(args[1], qv) && !seen[term] {
+			okIdx := strings.HasPrefix(idx, "(cidx ") && !strings.Contains(idx, "select") && !strings.Contains(idx, "ite")
+			if okIdx {
+				ca := splitSexprArgs(idx)
+				okIdx = len(ca) == 5 && ca[3] == qv
+			}
+			if okIdx && !strings.Contains(args[1], qv) && !seen[term] {
 				seen[term] = true
 				all = append(all, term)
 			}
